@@ -137,6 +137,7 @@ func specTrigger(cb *c18Cb, re *regexp.Regexp, b []byte) bool {
 }
 
 func runC18Case(id string, c *c18Case) {
+	defer recoverCase(id, c)
 	if c18rx == nil {
 		c18rx = map[string]string{}
 		for _, e := range loadRegexes() {
